@@ -96,6 +96,8 @@ def par_err_queries(tier):
     for c in (1, 2, 3):
         qs.append(par_q('err', c, 'initnull', '%s_parallel_ecb_init(NULL) returns 0' % CTR_CIPH[c], {'OB_INITNULL': 1}))
         for e, what in PERR.items():
-            qs.append(par_q('err', c, 'case%d' % e, 'invalid call (%s) on a live %s parallel-ECB object with arbitrary schedule content: returns 0; schedule, handle and caller buffers byte-identical' % (what, CTR_CIPH[c]),
-                            {'OB_ERR': 1, 'ERRCASE': e}))
+            for sel in ((0, 1, 2) if c == 1 else (0, 1)):
+                if e < 10 and sel != (2 if c == 1 else 1): continue          # small sizes: one back end is enough (the size check comes first)
+                qs.append(par_q('err', c, 'case%d:%s' % (e, ['generic', 'vec128', 'vec256'][sel]), 'invalid call (%s) on a live %s parallel-ECB object (%s back end) with arbitrary schedule content: returns 0; schedule, handle and caller buffers byte-identical' % (what, CTR_CIPH[c], ['generic', 'vec128', 'vec256'][sel]),
+                                {'OB_ERR': 1, 'ERRCASE': e, 'BACKSEL': sel}))
     return qs
